@@ -150,3 +150,25 @@ void h_MACRO_local_balance(void) {
     VPOST(g_pop == g_push, "C11: a macro level closes exactly the local symbol spaces it opened, none for an empty body (also C13: labels of the caller stay defined)");
     VREACH("end");
 }
+
+/* SHIFT: discards the first argument of the ENCLOSING MACRO CALL, also when it is executed from inside a REPT/IRP/WHILE
+ * body within that macro (the repetition levels have no macro arguments of their own). */
+static PInputTag g_cms_tag; static int g_cms_calls, g_cut_calls;
+void verif_ComputeMacroStrings(PInputTag Tag) { g_cms_calls++; g_cms_tag = Tag; }
+char* GetAndCutStringList(StringList* List) { StringRecPtr f = *List; g_cut_calls++; if (!f) return NULL; *List = f->Next; return f->Content; }
+void h_ExpandSHIFT(void) {
+    static TInputTag inner, mac; int nested, cnt0;
+    mk_tag();                                                  /* par[0..3] = the macro call's arguments */
+    memset(&inner, 0, sizeof(inner)); memset(&mac, 0, sizeof(mac));
+    mac.IsMacro = True; mac.Processor = MACRO_Processor; mac.Params = &par[0]; VND(mac.ParCnt, int); VASSUME(mac.ParCnt >= 1 && mac.ParCnt <= 4); mac.Next = NULL;
+    inner.IsMacro = True; VND(nested, int); VASSUME(nested >= 0 && nested <= 2);
+    inner.Processor = (nested == 1) ? REPT_Processor : IRP_Processor; inner.Params = (nested == 2) ? &body[0] : NULL; inner.ParCnt = (nested == 2) ? 3 : 0; inner.Next = &mac;
+    FirstInputTag = nested ? &inner : &mac;
+    IfAsm = True; ArgCnt = 0; cnt0 = mac.ParCnt; g_cms_calls = g_cut_calls = 0;
+    VND(g_err_cnt, ulong); VASSUME(g_err_cnt < 1000000);
+    ExpandSHIFT();
+    VPOST(mac.Params == &par[1] && mac.ParCnt == cnt0 - 1, "C11: SHIFT discards the first argument of the enclosing macro call");
+    VPOST(!nested || (inner.Params == ((nested == 2) ? &body[0] : NULL) && inner.ParCnt == ((nested == 2) ? 3 : 0)), "C11: SHIFT inside a REPT/IRP body leaves the repetition's own list alone");
+    VPOST(g_cms_calls == 1 && g_cms_tag == &mac && g_cut_calls == 1, "C11: ARGCOUNT / ALLARGS of the macro call are recomputed once");
+    VREACH("end");
+}
